@@ -148,7 +148,12 @@ class Scope(FortranObj):
             if def_error is not None:
                 errors.append(def_error)
             # Detect contains errors
-            if contains_line >= child.sline and child.get_type(no_link=True) in (
+            # NOTE: a procedure on the CONTAINS line itself (`contains; subroutine s`)
+            # can only follow the CONTAINS statement
+            if (
+                contains_line > child.sline
+                or (self.contains_start is None and contains_line == child.sline)
+            ) and child.get_type(no_link=True) in (
                 SUBROUTINE_TYPE_ID,
                 FUNCTION_TYPE_ID,
             ):
